@@ -12,11 +12,12 @@
   `body` its bytes; `skipField`, `skipToNoCheck` (Model/Wire.lean) mirror codec.go; `decVar`,
   `decMembers`, `decStruct`, `resetDefault` (Model/Schema.lean) mirror what tars2go emits.
   Helper lemmas: Proofs/Skip.lean, SkipTo.lean, Evolve.lean, EvolveReset.lean, EvolveStruct.lean,
-  EvolveFresh.lean, EvolveEnc.lean.
+  EvolveFresh.lean, EvolveEnc.lean, EvolveAsFound.lean (as-found `ResetDefault`, Model/SchemaAsFound.lean).
   Props/C04RT.lean (separate, because it imports the C03 development) discharges the per-member
   assumptions of section 3 with the C03 member round trip: `C04_unknown_ignored`.
 -/
 import TarsModel.Proofs.EvolveEnc
+import TarsModel.Proofs.EvolveAsFound
 
 namespace Tars
 open Consts WFField Evolve
@@ -140,21 +141,22 @@ theorem C04_unknown_ignored_block (env : Env) (N : Nat) (name : String) (fs : Li
     Partial w.r.t. `C04_unknown_ignored_full` in that (a) the known members' bytes are
     characterised by `HeadOk`/`SelfDelimiting` instead of being `encVar` of a well-typed value
     (what is missing is the C03 round trip per member, which yields both), and (b) two model
-    artefacts are hypotheses: the fuel `decFuel` of either run exceeds `N + #members`, and it is
-    large enough that `ResetDefault` is not cut short (`hstable`). -/
+    artefacts are hypotheses: the fuel `decFuel` of either run exceeds `N + #members` and the
+    struct-nesting depth of the target (`listDepth ovs`, 0 for a target without nested structs), so
+    that `ResetDefault` is not cut short by the fuel. -/
 theorem C04_unknown_ignored_partial (env : Env) (N : Nat) (S : String) (fs : List Field)
     (ovs : List Val) (items : List (List WFField × Slot)) (tail : List WFField)
     (r r' : Reader) (t t' : Bytes)
     (hfind : env.find S = some fs) (hfs : fieldsOf items = fs)
     (holds : oldsOf items = resetDefault env (decFuel env r) fs ovs)
-    (hstable : resetDefault env (decFuel env r') fs ovs = resetDefault env (decFuel env r) fs ovs)
+    (hdep : listDepth ovs < decFuel env r) (hdep' : listDepth ovs < decFuel env r')
     (hadm : Admissible 0 items tail) (hsl : ∀ p ∈ items, p.2.HeadOk ∧ p.2.SelfDelimiting env N)
     (hF : N + items.length < decFuel env r) (hF' : N + items.length < decFuel env r')
     (ht : Terminated t) (ht' : Terminated t')
     (h : r.rest = merged items tail ++ t) (h' : r'.rest = merged (strip items) [] ++ t') :
     (decStruct env S (.struct ovs) r).1 = (decStruct env S (.struct ovs) r').1 :=
-  decStruct_unknown_ignored env N S fs ovs items tail r r' t t' hfind hfs holds hstable hadm hsl
-    hF hF' ht ht' h h'
+  decStruct_unknown_ignored env N S fs ovs items tail r r' t t' hfind hfs holds
+    (resetDefault_fuel env _ _ fs ovs hdep' hdep) hadm hsl hF hF' ht ht' h h'
 
 /-- **C04_unknown_ignored_enc_partial**: the same with the known members given as `encVar` of the
     members of a value (`encSlots`), compared against `encStruct` of that value: merging unknown
@@ -165,7 +167,7 @@ theorem C04_unknown_ignored_enc_partial (env : Env) (N : Nat) (S : String) (fs :
     (r r' : Reader) (t t' : Bytes)
     (hfind : env.find S = some fs) (hlo : ovs.length = fs.length) (hlv : vals.length = fs.length)
     (hlg : gaps.length = fs.length)
-    (hstable : resetDefault env (decFuel env r') fs ovs = resetDefault env (decFuel env r) fs ovs)
+    (hdep : listDepth ovs < decFuel env r) (hdep' : listDepth ovs < decFuel env r')
     (hadm : Admissible 0
       (gaps.zip (encSlots env fs (resetDefault env (decFuel env r) fs ovs) vals)) tail)
     (hsl : ∀ s ∈ encSlots env fs (resetDefault env (decFuel env r) fs ovs) vals,
@@ -176,8 +178,8 @@ theorem C04_unknown_ignored_enc_partial (env : Env) (N : Nat) (S : String) (fs :
       (gaps.zip (encSlots env fs (resetDefault env (decFuel env r) fs ovs) vals)) tail ++ t)
     (h' : r'.rest = encStruct env S (.struct vals) ++ t') :
     (decStruct env S (.struct ovs) r).1 = (decStruct env S (.struct ovs) r').1 :=
-  decStruct_unknown_ignored_enc env N S fs vals ovs gaps tail r r' t t' hfind hlo hlv hlg hstable
-    hadm hsl hF hF' ht ht' h h'
+  decStruct_unknown_ignored_enc env N S fs vals ovs gaps tail r r' t t' hfind hlo hlv hlg
+    (resetDefault_fuel env _ _ fs ovs hdep' hdep) hadm hsl hF hF' ht ht' h h'
 
 /-- full strength (stated, not proved here): for every schema, every well-typed value `vals`, every
     target `ovs`, every admissible interleaving with unknown well-formed fields, decoding the
@@ -239,9 +241,12 @@ example :
   have hf2 : decFuel C04_exEnv (Reader.mk0 (merged (strip C04_exItems) [])) = 19 + 1 := by decide
   have hr : ∀ x : Bytes, (Reader.mk0 x).rest = x ++ [] := by intro x; simp [Reader.rest, Reader.mk0]
   refine C04_unknown_ignored_partial C04_exEnv 1 "S" C04_exFs _ C04_exItems C04_exTail _ _ [] []
-    hfind rfl ?_ ?_ ?_ ?_ ?_ ?_ (.inl rfl) (.inl rfl) (hr _) (hr _)
-  · rw [hf1]; simp [C04_exFs, resetDefault_cons, resetDefault_nil_left, resetMember, oldsOf, C04_exItems]
-  · rw [hf1, hf2]; simp [C04_exFs, resetDefault_cons, resetDefault_nil_left, resetMember]
+    hfind rfl ?_ ?_ ?_ ?_ ?_ ?_ ?_ (.inl rfl) (.inl rfl) (hr _) (hr _)
+  · rw [hf1]
+    simp [C04_exFs, resetDefault_cons, resetDefault_nil_left, resetMember, oldsOf, C04_exItems,
+      zeroOf, zeroVal, scalarZero]
+  · rw [hf1]; simp [listDepth, valDepth]
+  · rw [hf2]; simp [listDepth, valDepth]
   · simp +decide [Admissible, C04_exItems, C04_exTail]
   · intro p hp
     simp only [C04_exItems, List.mem_cons, List.mem_nil_iff, or_false] at hp
@@ -256,75 +261,96 @@ example :
 
 /-- **C04_absent_optional_member** (one generated member read, every member kind, any target): when
     the member's tag is not there (`After`: end of input, a StructEnd, or a head with a higher
-    tag), the read succeeds, leaves the reader where it was, and the target keeps its value (a
-    nested struct: its value after `ResetDefault`). -/
+    tag), the read succeeds, leaves the reader where it was, and the target keeps the value
+    `ResetDefault` gave it (a nested struct: its value after its own `ResetDefault`). -/
 theorem C04_absent_optional_member (env : Env) (F tag : Nat) (ty : Ty) (old : Val) (r : Reader)
     (hok : targetOk env ty old = true) (h : After tag r.rest) :
     decVar env (F+1) tag false ty old r = (.ok (absentVal env F ty old), r) :=
   decVar_absent_opt env F tag ty old r hok h
 
-/-- **C04_absent_optional** (`ReadFrom` into a fresh target): if decoding succeeds and member `i`
-    (optional, not a struct) is absent when its turn comes, the decoded member is its explicit IDL
-    default, or the Go zero value of its type if it has none. -/
+/-- the reuse clause of the property at full strength: decoding (`ReadFrom`) into ANY target
+    `ovs` — fresh or holding the values of an earlier packet — an optional member (not a struct)
+    that is absent when its turn comes decodes to its explicit IDL default, or to the Go zero value
+    of its type if it has none; the previous content `o` of the member is irrelevant.
+    (`hd`: an explicit default is a value of the member's type — schema well-formedness.) -/
+def C04_reuse_full : Prop :=
+  ∀ (env : Env) (S : String) (fs : List Field) (ovs vs : List Val) (r r' : Reader) (i : Nat)
+    (f : Field) (o : Val), env.find S = some fs →
+    decStruct env S (.struct ovs) r = (.ok (.struct vs), r') →
+    fs[i]? = some f → ovs[i]? = some o → f.req = false → isStructTy f.ty = false →
+    (∀ d, f.dflt = some d → targetOk env f.ty d = true) →
+    After f.tag (readerBefore env S (.struct ovs) r i).rest →
+    vs[i]? = some (f.dflt.getD (zeroOf env f.ty))
+
+/-- **C04_reuse**: the reuse clause holds (since the repair "ResetDefault resets every member";
+    before it, `C04_asFound_reuse_stale` below). -/
+theorem C04_reuse : C04_reuse_full := by
+  intro env S fs ovs vs r r' i f o hS h hf ho hopt hty hd habs
+  cases hdf : f.dflt with
+  | some d =>
+    have hrm := resetMember_dflt env (decFuel env r - 1) f o d hdf
+    have := decStruct_absent_opt env S fs ovs vs r r' hS h i f o hf ho hopt
+      (by rw [hrm]; exact hd d hdf) habs
+    rw [this, hrm, absentVal_plain env _ _ _ hty]; rfl
+  | none =>
+    have hrm := resetMember_plain env (decFuel env r - 1) f o hdf hty
+    have := decStruct_absent_opt env S fs ovs vs r r' hS h i f o hf ho hopt
+      (by rw [hrm]; exact targetOk_zeroVal env _ _ hty) habs
+    rw [this, hrm, absentVal_plain env _ _ _ hty]; rfl
+
+/-- **C04_absent_optional** (`ReadFrom` into a fresh target): the instance of `C04_reuse` for the Go
+    zero value of the struct — the same result as for any reused target. -/
 theorem C04_absent_optional (env : Env) (S : String) (fs : List Field) (vs : List Val)
     (r r' : Reader) (i : Nat) (f : Field) (hS : env.find S = some fs)
     (h : decStruct env S (freshStruct env S) r = (.ok (.struct vs), r'))
     (hf : fs[i]? = some f) (hopt : f.req = false) (hty : isStructTy f.ty = false)
     (hd : ∀ d, f.dflt = some d → targetOk env f.ty d = true)
     (habs : After f.tag (readerBefore env S (freshStruct env S) r i).rest) :
-    vs[i]? = some (f.dflt.getD (zeroVal env env.length f.ty)) := by
+    vs[i]? = some (f.dflt.getD (zeroOf env f.ty)) := by
   rw [freshStruct_eq env S fs hS] at h habs
   have ho : (fs.map fun f => zeroVal env env.length f.ty)[i]? = some (zeroVal env env.length f.ty) := by
     simp [hf]
-  cases hdf : f.dflt with
-  | some d =>
-    have hrm := resetMember_dflt env (decFuel env r - 1) f (zeroVal env env.length f.ty) d hdf
-    have := decStruct_absent_opt env S fs _ vs r r' hS h i f _ hf ho hopt (by rw [hrm]; exact hd d hdf) habs
-    rw [this, hrm, absentVal_plain env _ _ _ hty]; rfl
-  | none =>
-    have hrm := resetMember_plain env (decFuel env r - 1) f (zeroVal env env.length f.ty) hdf hty
-    have := decStruct_absent_opt env S fs _ vs r r' hS h i f _ hf ho hopt
-      (by rw [hrm]; exact targetOk_zeroVal env _ _ hty) habs
-    rw [this, hrm, absentVal_plain env _ _ _ hty]; rfl
+  exact C04_reuse env S fs _ vs r r' i f _ hS h hf ho hopt hty hd habs
 
-/-- **C04_absent_optional_struct**: an absent optional nested-struct member of a fresh target
-    decodes to the struct after `ResetDefault`: its members with an explicit default hold it. -/
-theorem C04_absent_optional_struct (env : Env) (S : String) (fs : List Field) (vs : List Val)
-    (r r' : Reader) (i : Nat) (f : Field) (name : String) (ifs : List Field)
+/-- **C04_reuse_struct**: decoding into ANY target, an absent optional nested-struct member decodes
+    to a struct in which every member with an explicit default holds that default and every other
+    non-struct member holds the Go zero value of its type, whatever the nested target held. -/
+theorem C04_reuse_struct (env : Env) (S : String) (fs : List Field) (ovs vs : List Val)
+    (r r' : Reader) (i : Nat) (f : Field) (name : String) (inner : List Val) (ifs : List Field)
     (hS : env.find S = some fs)
-    (h : decStruct env S (freshStruct env S) r = (.ok (.struct vs), r'))
-    (hf : fs[i]? = some f) (hopt : f.req = false) (hdf : f.dflt = none)
-    (hty : f.ty = .struct name) (hfind : env.find name = some ifs)
-    (hlen : 1 ≤ env.length)
-    (habs : After f.tag (readerBefore env S (freshStruct env S) r i).rest) :
+    (h : decStruct env S (.struct ovs) r = (.ok (.struct vs), r'))
+    (hf : fs[i]? = some f) (ho : ovs[i]? = some (.struct inner)) (hopt : f.req = false)
+    (hdf : f.dflt = none) (hty : f.ty = .struct name) (hfind : env.find name = some ifs)
+    (habs : After f.tag (readerBefore env S (.struct ovs) r i).rest) :
     ∃ res, vs[i]? = some (.struct res) ∧
-      ∀ (j : Nat) (g : Field) (d : Val), ifs[j]? = some g → g.dflt = some d → res[j]? = some d := by
-  rw [freshStruct_eq env S fs hS] at h habs
-  have ho : (fs.map fun f => zeroVal env env.length f.ty)[i]? = some (zeroVal env env.length f.ty) := by
-    simp [hf]
-  obtain ⟨n, hn⟩ : ∃ n, env.length = n + 1 := ⟨env.length - 1, by omega⟩
-  have hz : zeroVal env env.length f.ty = .struct (ifs.map fun g => zeroVal env n g.ty) := by
-    rw [hty, hn, zeroVal.eq_def]; simp [hfind]
-  rw [hz] at ho
-  have hrm := resetMember_struct env (decFuel env r - 1) f name
-    (ifs.map fun g => zeroVal env n g.ty) ifs hdf hty hfind
-  have := decStruct_absent_opt env S fs _ vs r r' hS h i f _ hf ho hopt
+      ∀ (j : Nat) (g : Field) (w : Val), ifs[j]? = some g → inner[j]? = some w →
+        isStructTy g.ty = false ∨ g.dflt.isSome → res[j]? = some (g.dflt.getD (zeroOf env g.ty)) := by
+  have hrm := resetMember_struct env (decFuel env r - 1) f name inner ifs hdf hty hfind
+  have := decStruct_absent_opt env S fs ovs vs r r' hS h i f _ hf ho hopt
     (by rw [hrm, hty]; simp [targetOk, hfind]) habs
   rw [hrm, hty, absentVal_struct env _ name _ ifs hfind] at this
-  refine ⟨_, this, fun j g d hg hgd => ?_⟩
+  refine ⟨_, this, fun j g w hg hw hcase => ?_⟩
   obtain ⟨G, hG⟩ : ∃ G, decFuel env r - 1 = G + 1 := ⟨decFuel env r - 2, by
     have : 6 ≤ decFuel env r := by
       unfold decFuel
       calc 6 = 3 * 2 := rfl
         _ ≤ (env.width + 3) * (r.data.size + 2) := Nat.mul_le_mul (by omega) (by omega)
     omega⟩
-  have hz' : (ifs.map fun g => zeroVal env n g.ty)[j]? = some (zeroVal env n g.ty) := by simp [hg]
-  have h1 : (resetDefault env (decFuel env r - 1) ifs (ifs.map fun g => zeroVal env n g.ty))[j]?
-      = some d := by
-    rw [hG, resetDefault_getElem? env G ifs _ j g _ hg hz', resetMember_dflt env G g _ d hgd]
+  -- what one application of `ResetDefault` leaves in member `j`, whatever it held
+  have hval : ∀ (F : Nat) (x : Val), resetMember env F g x = g.dflt.getD (zeroOf env g.ty) := by
+    intro F x
+    cases hgd : g.dflt with
+    | some d => rw [resetMember_dflt env F g x d hgd]; rfl
+    | none =>
+      rcases hcase with hns | hsome
+      · rw [resetMember_plain env F g x hgd hns]; rfl
+      · rw [hgd] at hsome; cases hsome
+  have h1 : (resetDefault env (decFuel env r - 1) ifs inner)[j]?
+      = some (g.dflt.getD (zeroOf env g.ty)) := by
+    rw [hG, resetDefault_getElem? env G ifs inner j g w hg hw, hval]
   rcases hF2 : decFuel env r - 1 - i - 1 with _ | G2
   · rw [resetDefault_zero]; exact h1
-  · rw [resetDefault_getElem? env G2 ifs _ j g d hg h1, resetMember_dflt env G2 g _ d hgd]
+  · rw [resetDefault_getElem? env G2 ifs _ j g _ hg h1, hval]
 
 /-- **C04_missing_required_member** (one generated member read, every member kind): when a required
     member's tag is not there, the read reports "can not find Tag … But require" -/
@@ -344,74 +370,9 @@ theorem C04_missing_required (env : Env) (S : String) (fs : List Field) (ovs : L
     ∃ e r', decStruct env S (.struct ovs) r = (.error e, r') :=
   decStruct_missing_req env S fs ovs r hS i f o hf ho hreq hok habs
 
-/-! ## 5. Reused targets -/
+/-! ## 5. The reuse example, now and as found (D13) -/
 
-/-- **C04_reuse_partial**: decoding into a target that already holds values (`ovs`): an absent
-    optional member
-    (a) with an explicit IDL default decodes to that default;
-    (b) that is a nested struct decodes to a struct whose members with an explicit default hold
-        their defaults (whatever the nested target held before). -/
-theorem C04_reuse_partial (env : Env) (S : String) (fs : List Field) (ovs vs : List Val)
-    (r r' : Reader) (i : Nat) (f : Field) (o : Val) (hS : env.find S = some fs)
-    (h : decStruct env S (.struct ovs) r = (.ok (.struct vs), r'))
-    (hf : fs[i]? = some f) (ho : ovs[i]? = some o) (hopt : f.req = false)
-    (habs : After f.tag (readerBefore env S (.struct ovs) r i).rest) :
-    (∀ d, f.dflt = some d → isStructTy f.ty = false → targetOk env f.ty d = true →
-      vs[i]? = some d) ∧
-    (∀ name inner ifs, f.dflt = none → f.ty = .struct name → o = .struct inner →
-      env.find name = some ifs →
-      ∃ res, vs[i]? = some (.struct res) ∧
-        ∀ (j : Nat) (g : Field) (w d : Val),
-          ifs[j]? = some g → inner[j]? = some w → g.dflt = some d → res[j]? = some d) := by
-  refine ⟨fun d hdf hty hd => ?_, fun name inner ifs hdf hty ho' hfind => ?_⟩
-  · have hrm := resetMember_dflt env (decFuel env r - 1) f o d hdf
-    have := decStruct_absent_opt env S fs ovs vs r r' hS h i f o hf ho hopt (by rw [hrm]; exact hd) habs
-    rw [this, hrm, absentVal_plain env _ _ _ hty]
-  · subst ho'
-    have hrm := resetMember_struct env (decFuel env r - 1) f name inner ifs hdf hty hfind
-    have := decStruct_absent_opt env S fs ovs vs r r' hS h i f _ hf ho hopt
-      (by rw [hrm, hty]; simp [targetOk, hfind]) habs
-    rw [hrm, hty, absentVal_struct env _ name _ ifs hfind] at this
-    refine ⟨_, this, fun j g w d hg hw hgd => ?_⟩
-    obtain ⟨G, hG⟩ : ∃ G, decFuel env r - 1 = G + 1 := ⟨decFuel env r - 2, by
-      have : 6 ≤ decFuel env r := by
-        unfold decFuel
-        calc 6 = 3 * 2 := rfl
-          _ ≤ (env.width + 3) * (r.data.size + 2) := Nat.mul_le_mul (by omega) (by omega)
-      omega⟩
-    have h1 : (resetDefault env (decFuel env r - 1) ifs inner)[j]? = some d := by
-      rw [hG, resetDefault_getElem? env G ifs inner j g w hg hw, resetMember_dflt env G g w d hgd]
-    rcases hF2 : decFuel env r - 1 - i - 1 with _ | G2
-    · rw [resetDefault_zero]; exact h1
-    · rw [resetDefault_getElem? env G2 ifs _ j g d hg h1, resetMember_dflt env G2 g _ d hgd]
-
-/-- **C04_reuse_stale** (defect D13, general form): decoding into a reused target, an absent
-    optional member *without* explicit default (and not a struct) keeps whatever the target held
-    before — not the Go zero value the property asks for. `ResetDefault` only assigns members
-    that have an explicit default. -/
-theorem C04_reuse_stale (env : Env) (S : String) (fs : List Field) (ovs vs : List Val)
-    (r r' : Reader) (i : Nat) (f : Field) (o : Val) (hS : env.find S = some fs)
-    (h : decStruct env S (.struct ovs) r = (.ok (.struct vs), r'))
-    (hf : fs[i]? = some f) (ho : ovs[i]? = some o) (hopt : f.req = false)
-    (hdf : f.dflt = none) (hty : isStructTy f.ty = false) (hok : targetOk env f.ty o = true)
-    (habs : After f.tag (readerBefore env S (.struct ovs) r i).rest) :
-    vs[i]? = some o := by
-  have hrm := resetMember_plain env (decFuel env r - 1) f o hdf hty
-  have := decStruct_absent_opt env S fs ovs vs r r' hS h i f o hf ho hopt (by rw [hrm]; exact hok) habs
-  rw [this, hrm, absentVal_plain env _ _ _ hty]
-
-/-- the full reuse clause of the property: an absent optional member of a *reused* target decodes to
-    its IDL default, or the zero value if it has none -/
-def C04_reuse_full : Prop :=
-  ∀ (env : Env) (S : String) (fs : List Field) (ovs vs : List Val) (r r' : Reader) (i : Nat)
-    (f : Field) (o : Val), env.find S = some fs →
-    decStruct env S (.struct ovs) r = (.ok (.struct vs), r') →
-    fs[i]? = some f → ovs[i]? = some o → f.req = false → isStructTy f.ty = false →
-    targetOk env f.ty o = true →
-    After f.tag (readerBefore env S (.struct ovs) r i).rest →
-    vs[i]? = some (f.dflt.getD (zeroVal env env.length f.ty))
-
-/-- D13 witness: `struct S { 0 require int a; 1 optional string b; }` (no default on `b`) -/
+/-- `struct S { 0 require int a; 1 optional string b; }` (no default on `b`) -/
 def C04_cexFs : List Field := [⟨0, true, .i32, none⟩, ⟨1, false, .str, none⟩]
 def C04_cexEnv : Env := [("S", C04_cexFs)]
 /-- the bytes of "old" -/
@@ -423,47 +384,99 @@ def C04_cexPkt : Bytes := writeInt32 5 0
 
 example : C04_cexPkt = [byte 0x00, byte 0x05] := by decide
 
-/-- **C04_reuse_counterexample** (D13, as found): decoding a packet that omits the optional string
-    `b` into a target that previously held `b = "old"` yields `b = "old"`, not `""`. -/
-theorem C04_reuse_counterexample :
+/-- **C04_reuse_example** (current code): decoding a packet that omits the optional string `b` into
+    a target that previously held `b = "old"` yields `b = ""` -/
+theorem C04_reuse_example :
     (decStruct C04_cexEnv "S" C04_cexOld (Reader.mk0 C04_cexPkt)).1
-      = .ok (.struct [.int 5, .str C04_cexOldStr]) := by
+      = .ok (.struct [.int 5, .str []]) := by
   have hfuel : decFuel C04_cexEnv (Reader.mk0 C04_cexPkt) = 19 + 1 := by decide
   have hrest : (Reader.mk0 C04_cexPkt).rest = writeInt32 5 0 ++ [] := by decide
   have hfind : C04_cexEnv.find "S" = some C04_cexFs := by simp [C04_cexEnv, Env.find]
   unfold decStruct
   simp only [hfind, C04_cexOld, hfuel]
   simp only [C04_cexFs, resetDefault_cons, resetDefault_nil_left, resetMember]
-  have h0 := C02_rt_int32 (Reader.mk0 C04_cexPkt) 5 0 1 true [] (by decide) (by decide) hrest
-  have hd0 : decVar C04_cexEnv 19 0 true .i32 (.int 1) (Reader.mk0 C04_cexPkt)
-      = (.ok (.int 5), (Reader.mk0 C04_cexPkt).adv (writeInt32 5 0).length) := by
-    unfold decVar; simp [readScalar, h0, mapRes]
-  have hr1 := (Reader.mk0 C04_cexPkt).rest_adv _ _ hrest
-  have hd1 := decVar_absent_opt C04_cexEnv 17 1 .str (.str C04_cexOldStr) _ (by decide) (.inl hr1)
-  rw [decMembers_cons_ok _ 19 ⟨0, true, .i32, none⟩ _ _ _ _ _ _ hd0,
-    decMembers_cons_ok _ 18 ⟨1, false, .str, none⟩ _ _ _ _ _ _ hd1, decMembers_nil]
-  simp [Except.map, absentVal]
-
-/-- for comparison, the same packet into a fresh target gives `b = ""` -/
-theorem C04_reuse_counterexample_fresh :
-    (decStruct C04_cexEnv "S" (freshStruct C04_cexEnv "S") (Reader.mk0 C04_cexPkt)).1
-      = .ok (.struct [.int 5, .str []]) := by
-  have hfuel : decFuel C04_cexEnv (Reader.mk0 C04_cexPkt) = 19 + 1 := by decide
-  have hrest : (Reader.mk0 C04_cexPkt).rest = writeInt32 5 0 ++ [] := by decide
-  have hfind : C04_cexEnv.find "S" = some C04_cexFs := by simp [C04_cexEnv, Env.find]
-  have hfresh : freshStruct C04_cexEnv "S" = .struct [.int 0, .str []] := by
-    rw [freshStruct_eq _ _ _ hfind]
-    simp [C04_cexFs, zeroVal, scalarZero]
-  rw [hfresh]
-  unfold decStruct
-  simp only [hfind, hfuel]
-  simp only [C04_cexFs, resetDefault_cons, resetDefault_nil_left, resetMember]
+  have hz1 : zeroOf C04_cexEnv .i32 = .int 0 := by simp [zeroOf, zeroVal, scalarZero]
+  have hz2 : zeroOf C04_cexEnv .str = .str [] := by simp [zeroOf, zeroVal, scalarZero]
+  rw [hz1, hz2]
   have h0 := C02_rt_int32 (Reader.mk0 C04_cexPkt) 5 0 0 true [] (by decide) (by decide) hrest
   have hd0 : decVar C04_cexEnv 19 0 true .i32 (.int 0) (Reader.mk0 C04_cexPkt)
       = (.ok (.int 5), (Reader.mk0 C04_cexPkt).adv (writeInt32 5 0).length) := by
     unfold decVar; simp [readScalar, h0, mapRes]
   have hr1 := (Reader.mk0 C04_cexPkt).rest_adv _ _ hrest
   have hd1 := decVar_absent_opt C04_cexEnv 17 1 .str (.str []) _ (by decide) (.inl hr1)
+  rw [decMembers_cons_ok _ 19 ⟨0, true, .i32, none⟩ _ _ _ _ _ _ hd0,
+    decMembers_cons_ok _ 18 ⟨1, false, .str, none⟩ _ _ _ _ _ _ hd1, decMembers_nil]
+  simp [Except.map, absentVal]
+
+/-- non-vacuity of `C04_reuse`: on that packet and reused target all its hypotheses hold for member
+    `b` (index 1), and it yields `b = ""` -/
+example : ∃ vs r', decStruct C04_cexEnv "S" C04_cexOld (Reader.mk0 C04_cexPkt) = (.ok (.struct vs), r') ∧
+    After 1 (readerBefore C04_cexEnv "S" C04_cexOld (Reader.mk0 C04_cexPkt) 1).rest ∧
+    vs[1]? = some (.str []) := by
+  have hfuel : decFuel C04_cexEnv (Reader.mk0 C04_cexPkt) = 19 + 1 := by decide
+  have hrest : (Reader.mk0 C04_cexPkt).rest = writeInt32 5 0 ++ [] := by decide
+  have hfind : C04_cexEnv.find "S" = some C04_cexFs := by simp [C04_cexEnv, Env.find]
+  have hz1 : zeroOf C04_cexEnv .i32 = .int 0 := by simp [zeroOf, zeroVal, scalarZero]
+  have hz2 : zeroOf C04_cexEnv .str = .str [] := by simp [zeroOf, zeroVal, scalarZero]
+  have h0 := C02_rt_int32 (Reader.mk0 C04_cexPkt) 5 0 0 true [] (by decide) (by decide) hrest
+  have hd0 : decVar C04_cexEnv 19 0 true .i32 (.int 0) (Reader.mk0 C04_cexPkt)
+      = (.ok (.int 5), (Reader.mk0 C04_cexPkt).adv (writeInt32 5 0).length) := by
+    unfold decVar; simp [readScalar, h0, mapRes]
+  have hr1 := (Reader.mk0 C04_cexPkt).rest_adv _ _ hrest
+  have hd1 := decVar_absent_opt C04_cexEnv 17 1 .str (.str []) _ (by decide) (.inl hr1)
+  have hdec : decStruct C04_cexEnv "S" C04_cexOld (Reader.mk0 C04_cexPkt)
+      = (.ok (.struct [.int 5, .str []]), (Reader.mk0 C04_cexPkt).adv (writeInt32 5 0).length) := by
+    unfold decStruct
+    simp only [hfind, C04_cexOld, hfuel]
+    simp only [C04_cexFs, resetDefault_cons, resetDefault_nil_left, resetMember]
+    rw [hz1, hz2, decMembers_cons_ok _ 19 ⟨0, true, .i32, none⟩ _ _ _ _ _ _ hd0,
+      decMembers_cons_ok _ 18 ⟨1, false, .str, none⟩ _ _ _ _ _ _ hd1, decMembers_nil]
+    simp [Except.map, absentVal]
+  have hbefore : readerBefore C04_cexEnv "S" C04_cexOld (Reader.mk0 C04_cexPkt) 1
+      = (Reader.mk0 C04_cexPkt).adv (writeInt32 5 0).length := by
+    simp only [readerBefore, hfind, C04_cexOld, hfuel, readerAt]
+    simp only [C04_cexFs, resetDefault_cons, resetDefault_nil_left, resetMember, List.take]
+    rw [hz1, decMembers_cons_ok _ 19 ⟨0, true, .i32, none⟩ _ _ _ _ _ _ hd0, decMembers_nil]
+  have haft : After 1 (readerBefore C04_cexEnv "S" C04_cexOld (Reader.mk0 C04_cexPkt) 1).rest := by
+    rw [hbefore]; exact .inl hr1
+  refine ⟨_, _, hdec, haft, ?_⟩
+  have := C04_reuse C04_cexEnv "S" C04_cexFs [.int 1, .str C04_cexOldStr] _ _ _ 1
+    ⟨1, false, .str, none⟩ (.str C04_cexOldStr) hfind hdec rfl rfl rfl rfl (fun d hd => by cases hd) haft
+  rw [this, hz2]; rfl
+
+/-- **C04_asFound_reuse_stale** (defect D13, general form; about the as-found `ResetDefault` of
+    Model/SchemaAsFound.lean only): decoding into a reused target, an absent optional member
+    *without* explicit default (and not a struct) kept whatever the target held before, because
+    the as-found `ResetDefault` only assigned members that have an explicit default. -/
+theorem C04_asFound_reuse_stale (env : Env) (S : String) (fs : List Field) (ovs vs : List Val)
+    (r r' : Reader) (i : Nat) (f : Field) (o : Val) (hS : env.find S = some fs)
+    (h : AsFound.decStruct env S (.struct ovs) r = (.ok (.struct vs), r'))
+    (hf : fs[i]? = some f) (ho : ovs[i]? = some o) (hopt : f.req = false)
+    (hdf : f.dflt = none) (hty : isStructTy f.ty = false) (hok : targetOk env f.ty o = true)
+    (habs : After f.tag (asFoundReaderBefore env S (.struct ovs) r i).rest) :
+    vs[i]? = some o := by
+  have hrm := asFoundResetMember_plain env (decFuel env r - 1) f o hdf hty
+  have := asFound_decStruct_absent_opt env S fs ovs vs r r' hS h i f o hf ho hopt
+    (by rw [hrm]; exact hok) habs
+  rw [this, hrm, absentVal_plain env _ _ _ hty]
+
+/-- **C04_asFound_reuse_counterexample** (D13, as found): with the as-found `ResetDefault`, the same
+    packet decoded into the target that held `b = "old"` yielded `b = "old"`, not `""`. -/
+theorem C04_asFound_reuse_counterexample :
+    (AsFound.decStruct C04_cexEnv "S" C04_cexOld (Reader.mk0 C04_cexPkt)).1
+      = .ok (.struct [.int 5, .str C04_cexOldStr]) := by
+  have hfuel : decFuel C04_cexEnv (Reader.mk0 C04_cexPkt) = 19 + 1 := by decide
+  have hrest : (Reader.mk0 C04_cexPkt).rest = writeInt32 5 0 ++ [] := by decide
+  have hfind : C04_cexEnv.find "S" = some C04_cexFs := by simp [C04_cexEnv, Env.find]
+  unfold AsFound.decStruct
+  simp only [hfind, C04_cexOld, hfuel]
+  simp only [C04_cexFs, asFound_resetDefault_cons, asFound_resetDefault_nil_left, asFoundResetMember]
+  have h0 := C02_rt_int32 (Reader.mk0 C04_cexPkt) 5 0 1 true [] (by decide) (by decide) hrest
+  have hd0 : decVar C04_cexEnv 19 0 true .i32 (.int 1) (Reader.mk0 C04_cexPkt)
+      = (.ok (.int 5), (Reader.mk0 C04_cexPkt).adv (writeInt32 5 0).length) := by
+    unfold decVar; simp [readScalar, h0, mapRes]
+  have hr1 := (Reader.mk0 C04_cexPkt).rest_adv _ _ hrest
+  have hd1 := decVar_absent_opt C04_cexEnv 17 1 .str (.str C04_cexOldStr) _ (by decide) (.inl hr1)
   rw [decMembers_cons_ok _ 19 ⟨0, true, .i32, none⟩ _ _ _ _ _ _ hd0,
     decMembers_cons_ok _ 18 ⟨1, false, .str, none⟩ _ _ _ _ _ _ hd1, decMembers_nil]
   simp [Except.map, absentVal]
